@@ -32,6 +32,7 @@ G = {}
 
 QUICK_MODELS = ["sphere", "cylinder", "ellipsoid", "parallelepiped", "capped_cylinder",
                 "core_multi_shell", "vesicle", "lamellar", "fractal_core_shell", "hollow_cylinder"]
+VERY_SLOW_MODELS = {"superball", "pringle", "fcc_paracrystal", "bcc_paracrystal", "sc_paracrystal"}
 DISTS = ["gaussian", "rectangle", "lognormal", "schulz", "uniform", "boltzmann"]
 QSETS = {
     "q3": [[0.01, 0.1, 0.3]],
@@ -506,6 +507,10 @@ def gen_pars(w, info, two_d, tier):
     # so that a workload (reference + ~15 schedules) stays within seconds.
     fast = info.id in QUICK_MODELS
     budget = (3000 if tier != "quick" else 900) if fast else 150
+    if partable.orientation_parameters and not two_d:
+        budget = min(budget, 300)      # 1-D values of oriented shapes are numerical orientation averages
+    if info.id in VERY_SLOW_MODELS:
+        budget = 24                    # tens of milliseconds per mesh point and q value
     for name in chosen:
         p = byname[name]
         dist = w.choice(DISTS)
@@ -668,8 +673,8 @@ def sample_of(cfg, res):
 
 SIM_TIME_MEASURE = "logical time: kernel invocations issued by the simulated schedules (scheduler_steps_total)"
 SCHEDULE_SHRINK = False
-CHUNK = 16
-CHUNK_TIMEOUT = 900
+CHUNK = 8
+CHUNK_TIMEOUT = 1500
 MINIMISE_BUDGET = 20
 MINIMISE_TOTAL = 200
 EXPECTED_PROBES = ["split_inside_innermost_loop", "split_on_stride_boundary", "three_or_more_nested_loops_split",
